@@ -89,6 +89,10 @@ def resolve(profile: str, key: str) -> Tuple[str, bool]:
     if key in FOREIGN:
         return FOREIGN[key], False
     key = SHORT.get(key, key)
+    if key.startswith("vendor:"):   # the profile's service name under another vendor domain: not a profile service
+        _, alias, ver = key.split(":")
+        prefix = SERVICE_MAX[PROFILES[profile]][alias][0]
+        return prefix.replace("urn:schemas-upnp-org:", "urn:example-org:") + f":{ver}", False
     alias, ver = key.split(":")
     table = SERVICE_MAX[PROFILES[profile]]
     if alias not in table:
@@ -112,16 +116,50 @@ def path_of(key: str) -> str:
     return key.replace(":", "_")
 
 
-def device_xml(profile: str, services: List[str], devver: int = 1) -> str:
-    svc = "".join(
-        f"<service><serviceType>{resolve(profile, s)[0]}</serviceType><serviceId>urn:upnp-org:serviceId:{path_of(s)}</serviceId>"
-        f"<controlURL>/c/{path_of(s)}</controlURL><eventSubURL>/e/{path_of(s)}</eventSubURL><SCPDURL>/scpd.xml</SCPDURL></service>"
-        for s in services)
-    device_type = f"{DEVICE_MAX[PROFILES[profile]][0]}:{devver}"
+def service_xml(profile: str, key: str, used_ids: set) -> str:
+    """one <service>; the serviceId is the standard one of the service type (`urn:upnp-org:serviceId:<Name>`, which
+    profile code such as DmrDevice._on_event keys on), made unique when a second service of that name follows"""
+    urn = resolve(profile, key)[0]
+    name = urn.split(":")[-2] if key not in FOREIGN else key
+    sid = name
+    k = 2
+    while sid in used_ids:
+        sid = f"{name}{k}"
+        k += 1
+    used_ids.add(sid)
+    return (f"<service><serviceType>{urn}</serviceType><serviceId>urn:upnp-org:serviceId:{sid}</serviceId>"
+            f"<controlURL>/c/{path_of(key)}</controlURL><eventSubURL>/e/{path_of(key)}</eventSubURL>"
+            f"<SCPDURL>/scpd.xml</SCPDURL></service>")
+
+
+def layout_order(services: List[str], depths: List[int]) -> List[str]:
+    """order in which `UpnpDevice.all_services` lists them: the device's own services, then (recursively) those of
+    its embedded devices"""
+    return [s for d in (0, 1, 2) for s, dd in zip(services, depths) if dd == d]
+
+
+def device_xml(profile: str, services: List[str], devver: int = 1, depths: Optional[List[int]] = None,
+               outer: Optional[List[str]] = None) -> str:
+    """description document.  `depths[i]` = 0: service i is a direct service of the profile device, 1 / 2: of an
+    embedded device one / two levels down (the standard IGD layout).  `outer` (if not None): the profile device is
+    itself embedded in a root device of another type that offers the `outer` services."""
+    depths = depths or [0] * len(services)
+    used: set = set()
+
+    def dev(dtype: str, udn: str, svcs: List[str], inner: str) -> str:
+        sl = "".join(service_xml(profile, s, used) for s in svcs)
+        dl = f"<deviceList>{inner}</deviceList>" if inner else ""
+        return (f"<device><deviceType>{dtype}</deviceType><friendlyName>d</friendlyName><manufacturer>m</manufacturer>"
+                f"<modelName>n</modelName><UDN>uuid:{udn}</UDN><serviceList>{sl}</serviceList>{dl}</device>")
+
+    at = lambda d: [s for s, dd in zip(services, depths) if dd == d]  # noqa: E731
+    e2 = dev("urn:schemas-upnp-org:device:Inner2:1", "c12-e2", at(2), "") if at(2) else ""
+    e1 = dev("urn:schemas-upnp-org:device:Inner1:1", "c12-e1", at(1), e2) if (at(1) or at(2)) else ""
+    body = dev(f"{DEVICE_MAX[PROFILES[profile]][0]}:{devver}", "c12", at(0), e1)
+    if outer is not None:
+        body = dev("urn:schemas-upnp-org:device:Basic:1", "c12-root", outer, body)
     return (f'<?xml version="1.0"?><root xmlns="urn:schemas-upnp-org:device-1-0"><specVersion><major>1</major><minor>0</minor>'
-            f"</specVersion><device><deviceType>{device_type}</deviceType><friendlyName>d</friendlyName>"
-            f"<manufacturer>m</manufacturer><modelName>n</modelName><UDN>uuid:c12</UDN><serviceList>{svc}</serviceList>"
-            f"</device></root>")
+            f"</specVersion>{body}</root>")
 
 
 class SpinDetected(BaseException):
@@ -194,11 +232,16 @@ class Sim:
         self.ft = FakeTime(self.loop)
         self.loop.faketime = self.ft
         self.devver = int(recipe.get("devver", 1))
+        self.depths = [int(d) for d in recipe.get("depths", [0] * len(self.services))][:len(self.services)]
+        self.depths += [0] * (len(self.services) - len(self.depths))
+        self.outer = recipe.get("outer")
         inter = [s for s in self.services if is_interesting(self.profile_name, s)]
         self.n = len(inter)
         self.svc_index: Dict[str, int] = {}
+        for j, s in enumerate(self.outer or []):     # services of the enclosing root are not the profile's
+            self.svc_index[f"/e/{path_of(s)}"] = 200 + j
         k = 0
-        for j, s in enumerate(self.services):
+        for j, s in enumerate(layout_order(self.services, self.depths)):
             if is_interesting(self.profile_name, s):
                 self.svc_index[f"/e/{path_of(s)}"] = k
                 k += 1
@@ -206,6 +249,15 @@ class Sim:
                 self.svc_index[f"/e/{path_of(s)}"] = 100 + j
         self.stopped = False
         self.tags.add(f"devver:{self.profile_name}:{self.devver}")
+        self.tags.add(f"layout:depth{max(self.depths + [0])}")
+        if self.outer is not None:
+            self.tags.add("layout:profile-embedded")
+        for sname in self.services:
+            kk = SHORT.get(sname, sname)
+            if kk.startswith("vendor:"):
+                self.tags.add("only:vendor-domain")
+            elif sname not in FOREIGN and not is_interesting(self.profile_name, sname):
+                self.tags.add("only:above-max-version")
         for sname in self.services:
             if is_interesting(self.profile_name, sname):
                 a, v = SHORT.get(sname, sname).split(":")
@@ -223,7 +275,7 @@ class Sim:
         path = "/" + path
         if method == "GET":
             if path == "/device.xml":
-                return 200, make_headers({}), device_xml(self.profile_name, self.services, self.devver)
+                return 200, make_headers({}), device_xml(self.profile_name, self.services, self.devver, self.depths, self.outer)
             return 200, make_headers({}), SCPD
         reac, tmo, lat = self.script[self.pos] if self.pos < len(self.script) else self.default
         self.pos += 1
@@ -322,19 +374,24 @@ class Sim:
         t = self.profile._resubscriber_task
         return t is not None and not t.done()
 
+    def any_task_pending(self) -> bool:
+        """observable form of "the renewal task has ended": no task at all is pending on the loop between two caller
+        operations (the harness itself runs outside tasks), whatever attribute the profile keeps it in"""
+        return any(not t.done() for t in asyncio.all_tasks(self.loop))
+
     def snap(self) -> None:
         subs = [self.sid_tok(s) for s in self.profile._subscriptions]
         routed = sorted((self.sid_tok(s) for s in list(self.handler._subscriptions.keys())), key=lambda x: (len(x), x))
         self.lines.append(
             f"o snap {ms(self.loop.time())} {','.join(subs) or '~'} {','.join(routed) or '~'} "
-            f"{'T' if self.task_alive() else 'F'} {'T' if self.device.available else 'F'}")
+            f"{'T' if (self.task_alive() or self.any_task_pending()) else 'F'} {'T' if self.profile.profile_device.available else 'F'}")
 
     def on_event(self, service, state_variables) -> None:
         path = "/" + service.event_sub_url.split("://", 1)[1].split("/", 1)[1]
         self.lines.append(
             f"o cb {ms(self.loop.time())} {self.svc_index.get(path, 999)} {len(state_variables)} "
-            f"{'T' if self.device.available else 'F'}")
-        self.tags.add("cb:unavail" if not self.device.available else "cb:avail")
+            f"{'T' if self.profile.profile_device.available else 'F'}")
+        self.tags.add("cb:unavail" if not self.profile.profile_device.available else "cb:avail")
 
     # ---- run ---------------------------------------------------------------------------------------
     def run(self) -> None:
@@ -492,6 +549,10 @@ CORPUS: List[Dict[str, Any]] = [
     {"profile": "dmr", "services": ["RC", "CM", "AVT", "RC2"],
      "script": [["ok", 100, 0]] * 4 + [["unreach", 1, 250], ["refuse", 1, 0], ["ok", 200, 0], ["comm", 1, 0], ["refuse", 1, 500], ["new", 300, 0]],
      "default": ["ok", 1800, 0], "ops": [["sub", 1], ["wait", 50125], ["wait", 3600000], ["unsub"], ["wait", 1000]]},
+    # C12-1 (audit): a failed renewal of the AVTransport service of a DMR (standard serviceId) must be reported through
+    # DmrDevice._on_event with an empty change list
+    {"profile": "dmr", "services": ["AVT", "RC"], "script": [["ok", 61, 0], ["ok", 300, 0], ["unreach", 61, 0], ["refuse", 61, 0], ["comm", 61, 0]],
+     "default": ["ok", 300, 0], "ops": [["sub", 1], ["wait", 30125], ["wait", 400000], ["unsub"]]},
     # no profile service at all; manual mode
     {"profile": "dmr", "services": ["X1"], "script": [], "default": ["ok", 1800, 0], "ops": [["sub", 1], ["wait", 1000], ["unsub"]]},
     {"profile": "igd", "services": ["CIC", "L3"], "script": [], "default": ["ok", 120, 0], "ops": [["sub", 0], ["wait", 300000], ["unsub"], ["sub", 1], ["unsub"]]},
@@ -515,8 +576,27 @@ def rand_services(rng, profile: str) -> Tuple[List[str], int]:
     rng.shuffle(keys)
     k = rng.choice([0, 1, 1, 2, 2, 3, 3, 4])
     services = keys[:k] + rng.sample(["X1", "X2"], rng.choice([0, 0, 1, 2]))
+    # "and ONLY": services of a profile's type that are NOT in its table (version above the maximum, other vendor domain)
+    a = rng.choice(sorted(table))
+    if rng.random() < 0.25:
+        services.append(f"{a}:{table[a][1] + 1}")
+    if rng.random() < 0.15:
+        services.append(f"vendor:{a}:1")
     rng.shuffle(services)
     return services, k
+
+
+def rand_layout(rng, profile: str, services: List[str]) -> Dict[str, Any]:
+    """where the services sit: directly in the profile device or in embedded devices one / two levels down; and
+    whether the profile device is itself embedded in a root device of another type"""
+    out: Dict[str, Any] = {}
+    if rng.random() < 0.5:
+        out["depths"] = [rng.choice([0, 0, 0, 1, 1, 2]) for _ in services]
+    if rng.random() < 0.25:
+        table = SERVICE_MAX[PROFILES[profile]]
+        out["outer"] = rng.sample(["X1", "X2", f"vendor:{sorted(table)[0]}:1"], rng.choice([0, 1, 2]))
+        out["outer"] = [o for o in out["outer"] if o not in services]
+    return out
 
 
 def rand_recipe(rng, calm: bool) -> Dict[str, Any]:
@@ -549,7 +629,7 @@ def rand_recipe(rng, calm: bool) -> Dict[str, Any]:
             if rng.random() < 0.6:
                 ops.append(["wait", rng.choice(WAITS)])
     return {"profile": profile, "services": services, "devver": rng.randrange(1, DEVICE_MAX[PROFILES[profile]][1] + 1),
-            "script": script, "default": default, "ops": ops}
+            **rand_layout(rng, profile, services), "script": script, "default": default, "ops": ops}
 
 
 def version_recipes() -> List[Dict[str, Any]]:
@@ -569,6 +649,19 @@ def version_recipes() -> List[Dict[str, Any]]:
             for v in range(1, vmax + 1):
                 out.append({"profile": profile, "services": ["X2", f"{a}:{v}"], "devver": 1, "script": [],
                             "default": ["ok", 300, 0], "ops": ops})
+            # "and ONLY": the same type one version above the table, and under another vendor domain
+            out.append({"profile": profile, "services": [f"{a}:{vmax + 1}", f"{a}:1", f"vendor:{a}:1"], "devver": 1,
+                        "script": [], "default": ["ok", 300, 0], "ops": ops})
+        # embedded layouts: services one and two levels down (the standard IGD layout), every placement of the first
+        # three services over depths 0..2, and the profile device itself embedded in a root of another type
+        names = [f"{a}:1" for a in sorted(table)][:3]
+        import itertools as _it
+        for depths in _it.product((0, 1, 2), repeat=len(names)):
+            out.append({"profile": profile, "services": names + ["X1"], "depths": list(depths) + [1], "devver": 1,
+                        "script": [], "default": ["ok", 300, 0], "ops": ops})
+        out.append({"profile": profile, "services": names, "depths": [0, 1, 2][:len(names)], "outer": ["X2", f"vendor:{sorted(table)[0]}:1"],
+                    "devver": 1, "script": [["ok", 61, 0]] * len(names) + [["unreach", 61, 0]], "default": ["ok", 300, 0],
+                    "ops": [["sub", 1], ["wait", 30125], ["wait", 400000], ["unsub"]]})
     return out
 
 
@@ -690,7 +783,9 @@ REQUIRED_TAGS = ([f"tmo:s{k}:{b}" for k in range(3) for b in ("61-120", "121-600
                                                 "task-ended", "notask")]
                  + [f"ver:{p}:{a}:{v}" for p, c in sorted(PROFILES.items()) for a, (_, vmax) in sorted(SERVICE_MAX[c].items())
                     for v in range(1, vmax + 1)]
-                 + [f"devver:{p}:{v}" for p, c in sorted(PROFILES.items()) for v in range(1, DEVICE_MAX[c][1] + 1)])
+                 + [f"devver:{p}:{v}" for p, c in sorted(PROFILES.items()) for v in range(1, DEVICE_MAX[c][1] + 1)]
+                 + ["layout:depth0", "layout:depth1", "layout:depth2", "layout:profile-embedded",
+                    "only:above-max-version", "only:vendor-domain"])
 
 
 def extra_evidence(ctx: Ctx, cases: List[Case], verdicts) -> Dict[str, Any]:
